@@ -1175,6 +1175,36 @@ fn run_quiescence_wrappers(prop: &'static str) {
             }
         }
     }
+    // joins: some inputs have completed, the others sleep
+    for try_variant in [false, true] {
+        for n in 2..=5usize {
+            for done_mask in 0..(1usize << n) - 1 {
+                let sts: Vec<St> = (0..n).map(|i| { let s: St = Rc::new(ChildSt::default()); s.ready.set((done_mask >> i) & 1 == 1); s }).collect();
+                let mut trail = vec![];
+                macro_rules! drive { ($j:expr) => {{
+                    for _ in 0..(n + 6) {
+                        let before = tw.0.load(Ordering::SeqCst);
+                        let r = $j.as_mut().poll(&mut cx);
+                        let woke = tw.0.load(Ordering::SeqCst) > before;
+                        trail.push(format!("poll -> {} (task woken: {woke})", if r.is_pending() { "Pending" } else { "Ready" }));
+                        std::mem::forget(r);
+                    }
+                }}; }
+                if try_variant {
+                    let mut j = Box::pin(try_join_all(sts.iter().enumerate().map(|(i, s)| TFut(Fut::new(i, s.clone()))).collect::<Vec<_>>()));
+                    drive!(j);
+                } else {
+                    let mut j = Box::pin(join_all(sts.iter().enumerate().map(|(i, s)| Fut::new(i, s.clone())).collect::<Vec<_>>()));
+                    drive!(j);
+                }
+                for s in &sts { s.waker.borrow_mut().take(); }
+                if trail.iter().rev().take(3).all(|t| t.starts_with("poll -> Pending") && t.ends_with("true)")) {
+                    report(&Fail { prop, scenario: format!("{}: {n} inputs, those of mask {done_mask:#b} complete at their first poll, the others sleep; nobody invokes a waker", if try_variant { "try_join_all" } else { "join_all" }),
+                        history: trail.iter().rev().take(6).rev().cloned().collect(), what: format!("after {} polls the combinator still wakes its task on every poll although every input it still holds sleeps", n + 6) });
+                }
+            }
+        }
+    }
     // adapters: n sleeping jobs in flight (or none), upstream pending for ever
     for which in 0..5usize {
         for n in 0..=3usize {
@@ -1200,6 +1230,66 @@ fn run_quiescence_wrappers(prop: &'static str) {
                 if trail.iter().rev().take(3).all(|t| t.starts_with("poll -> Pending") && t.ends_with("true)")) {
                     report(&Fail { prop, scenario: format!("{}({n}): {jobs} sleeping jobs pulled, upstream pending for ever; nobody invokes a waker", names[which]),
                         history: trail.iter().rev().take(6).rev().cloned().collect(), what: format!("after {} polls the adapter still wakes its task on every poll although everything it holds sleeps", jobs + 8) });
+                }
+            }
+        }
+    }
+}
+/// an upstream that is NOT `Unpin` and remembers where it was first polled; polled or dropped elsewhere = moved
+struct PinnedUp<T> {
+    inner: Upstream<T>,
+    addr: Rc<Cell<usize>>,
+    moved: Rc<Cell<bool>>,
+    _pin: std::marker::PhantomPinned,
+}
+impl<T> Stream for PinnedUp<T> {
+    type Item = T;
+    fn poll_next(self: Pin<&mut Self>, cx: &mut Context<'_>) -> Poll<Option<T>> {
+        let a = &*self as *const _ as usize;
+        if self.addr.get() == 0 { self.addr.set(a); } else if self.addr.get() != a { self.moved.set(true); }
+        let this = unsafe { self.get_unchecked_mut() };
+        Pin::new(&mut this.inner).poll_next(cx)
+    }
+    fn size_hint(&self) -> (usize, Option<usize>) { self.inner.size_hint() }
+}
+impl<T> Drop for PinnedUp<T> {
+    fn drop(&mut self) {
+        let a = self as *const _ as usize;
+        if self.addr.get() != 0 && self.addr.get() != a { self.moved.set(true); }
+    }
+}
+/// C08 for the upstream of the adapters: a pinned (`!Unpin`) upstream stays where it was polled until it is dropped - also
+/// when the adapter lets go of it because it has ended.
+fn run_upstream_pinned(prop: &'static str) {
+    if prop != "C08" {
+        return;
+    }
+    let tw = Arc::new(CountWaker(AtomicUsize::new(0)));
+    let waker = Waker::from(tw.clone());
+    let mut cx = Context::from_waker(&waker);
+    let names = ["buffered_unordered", "buffered_ordered", "try_buffered_unordered", "try_buffered_ordered", "for_each_concurrent"];
+    for which in 0..5usize {
+        for n in 1..=3usize {
+            for script in [vec![Up::Item, Up::Item, Up::End], vec![Up::Item, Up::Pending, Up::Item, Up::Item, Up::Item, Up::End], vec![Up::End]] {
+                let addr = Rc::new(Cell::new(0usize));
+                let moved = Rc::new(Cell::new(false));
+                type BoxS = Pin<Box<dyn Stream<Item = Result<usize, usize>>>>;
+                macro_rules! pinned { ($u:expr) => { PinnedUp { inner: $u, addr: addr.clone(), moved: moved.clone(), _pin: std::marker::PhantomPinned } }; }
+                let (mut s, ust): (BoxS, Rc<UpSt>) = match which {
+                    0 => { let (u, st) = upstream(&script, Box::new(move |id, c| Fut::new(id, c))); (Box::pin(MapOk(Box::pin(pinned!(u).buffered_unordered(n)))), st) }
+                    1 => { let (u, st) = upstream(&script, Box::new(move |id, c| Fut::new(id, c))); (Box::pin(MapOk(Box::pin(pinned!(u).buffered_ordered(n)))), st) }
+                    2 => { let (u, st) = upstream(&script, Box::new(move |id, c: St| Ok::<TFut, usize>(TFut(Fut::new(id, c))))); (Box::pin(MapTry(Box::pin(pinned!(u).try_buffered_unordered(n)))), st) }
+                    3 => { let (u, st) = upstream(&script, Box::new(move |id, c: St| Ok::<TFut, usize>(TFut(Fut::new(id, c))))); (Box::pin(MapTry(Box::pin(pinned!(u).try_buffered_ordered(n)))), st) }
+                    _ => { let (u, st) = upstream(&script, Box::new(move |id, c: St| (id, c))); let f = pinned!(u).for_each_concurrent(n, move |(id, c): (usize, St)| UnitFut(Fut::new(id, c))); (Box::pin(FutStream(Some(Box::pin(f)))), st) }
+                };
+                for round in 0..12 {
+                    let _ = s.as_mut().poll_next(&mut cx);
+                    if round % 2 == 1 { for c in ust.children.borrow().iter() { c.ready.set(true); wake_child(c); } }
+                }
+                drop(s);
+                if moved.get() {
+                    report(&Fail { prop, scenario: format!("{}({n}) over a pinned (!Unpin) upstream with script {script:?}", names[which]), history: vec!["poll x12 (jobs complete every second round)".into(), "drop".into()],
+                        what: "the upstream was polled or dropped at a different address than the one it was first polled at".into() });
                 }
             }
         }
@@ -2514,6 +2604,31 @@ fn run_alloc_unbounded(prop: &'static str) {
         }
         head.waker.borrow_mut().take();
     }
+    // S1c: batches through `Extend` at a constant peak: after the warm-up no further allocation
+    for batch in [40usize, 100] {
+        let mut q: FuturesOrdered<Fut> = FuturesOrdered::new();
+        let mut per_cycle = vec![];
+        let mut id = 0usize;
+        for _cycle in 0..16 {
+            let sts: Vec<St> = (0..batch).map(|_| { let s: St = Rc::new(ChildSt::default()); s.ready.set(true); s }).collect();
+            let futs: Vec<Fut> = sts.iter().map(|s| { id += 1; Fut::new(id, s.clone()) }).collect();
+            let it = futs.into_iter();
+            let mut a = 0usize;
+            measured!(a, q.extend(it));
+            let mut got = 0;
+            let mut guard = 0;
+            while got < batch && guard < 10 * batch + 100 {
+                guard += 1;
+                if let Poll::Ready(Some(o)) = measured!(a, Pin::new(&mut q).poll_next(&mut cx)) { got += 1; drop(o); }
+            }
+            per_cycle.push(a);
+        }
+        let late: usize = per_cycle[6..].iter().sum();
+        if late > 0 {
+            report(&Fail { prop, scenario: format!("FuturesOrdered: 16 cycles of extend({batch} ready futures) / poll until they are all out (no trailing poll)"), history: vec![format!("allocations per cycle: {:?}", per_cycle)],
+                what: format!("{late} allocations in cycles 7..16 at a constant peak of {batch} held futures: allocations grow with the number of children processed") });
+        }
+    }
     // S2: FuturesOrdered with a pending head and parked outputs; push_front + poll cycles run the index house-keeping every time
     for parked in [0usize, 2, 5] {
         let mut q: FuturesOrdered<Fut> = FuturesOrdered::new();
@@ -2841,6 +2956,7 @@ fn main() {
         "C08" => {
             run_address_big(prop);
             run_adapter_moved(prop);
+            run_upstream_pinned(prop);
             run_collections(prop, seed, iters);
             run_join(prop, seed, iters / 2);
             run_adapters(prop, seed, iters / 2);
